@@ -130,7 +130,7 @@ def oracle_restart_after_crash(args):
         with Injector() as inj:
             tr = YAMLTrace(base_name="traj", location=tmp, log_pitch=args["pitch"])
             t = mudslide.TrajectorySH(model, [-3.0], [12.0], 0, tracer=tr, dt=20.0, max_steps=args["steps"],
-                                      zeta_list=[1.0] * 500, seed_sequence=5)
+                                      zeta_list=[1e300] * 500, seed_sequence=5)
             inj.armed = True
             inj.fail_at = args["k"] + 3        # the first snapshot needs no roll-over: ops 1.. are collects
             try:
@@ -143,7 +143,7 @@ def oracle_restart_after_crash(args):
         n0 = len(log)
         problems = []
         if n0 >= 2:
-            t2 = mudslide.TrajectorySH.restart(model, log, max_steps=args["steps"] + 5, zeta_list=[1.0] * 500, seed_sequence=5)
+            t2 = mudslide.TrajectorySH.restart(model, log, max_steps=args["steps"] + 5, zeta_list=[1e300] * 500, seed_sequence=5)
             t2.simulate()
             final = load_log(main)
             times = [s["time"] for s in final]
